@@ -20,25 +20,13 @@ import simcheck
 from symx import Stats, HarnessError, Inconclusive, SymInt, bv, W, explore, sym_int, Path
 
 PROP = 'C05'
-IO_SLOTS = {('main', 0xD3), ('main', 0xDB)} | {('ED', op) for op in range(0x40, 0x80) if op & 7 in (0, 1)} | \
-    {('ED', op) for op in (0xA2, 0xA3, 0xAA, 0xAB, 0xB2, 0xB3, 0xBA, 0xBB)}
-
-_M = {}
+IO_SLOTS = simcheck.IO_SLOTS
+machine = simcheck.get_machine
 
 
 def init_worker():
     sh.patch_tables()
     sh.patch_delays()
-
-
-def machine(cls_name, mach, tracer):
-    key = (cls_name, mach, tracer)
-    if key not in _M:
-        import skoolkit.simulator as sm
-        import skoolkit.cmiosimulator as cm
-        cls = {'Simulator': sm.Simulator, 'CMIOSimulator': cm.CMIOSimulator}[cls_name]
-        _M[key] = sh.Machine(cls, mach, sh.Tracer() if tracer else None)
-    return _M[key]
 
 
 def compare(p, m, ref, skip=(), t_exact=True):
